@@ -5,7 +5,15 @@ Real code (public entry points, over harness.fakecourier with no faults, real se
   kind 'interleaved' : orchestrate.run_pipeline_interleaved(pipeline, master_server, resources={stage: worker pool})
                        (a data-source stage in process -> an 'apply' stage on 1-3 remote workers fed through a
                        RemoteIteratorQueue over the master's queue -> the aggregate fused into it or as a third stage)
-  kind 'strict'      : TransformRunner.merge_states / ChainedRunner.merge_states(states, strict_states_cnt=n)
+  kind 'strict'      : TransformRunner.merge_states / ChainedRunner.merge_states(states, strict_states_cnt=n); variants
+                       'chained2' / 'chained3' = a chain with two / three AGGREGATING stages; `oneshot` = the states are
+                       handed over as a one-shot generator (what compute_result does), not as a list
+  kind 'cache'       : what the handler threads of ONE server do concurrently (in interleaved mode the master resolves the
+                       stage-input handle once per worker request): lazy_fns.maybe_make of cached lazy functions from
+                       several threads, more distinct ones than the cache holds, with a fine thread switch interval
+  interleaved + `ack`: RPC latency as an environment choice: the REPLY of the first `enqueue_from_iterator` kick-off
+                       (the worker is already pulling the stage input) is held back `ack` ms while the other workers
+                       drain the input and finish; `lat` = [[ms, k], ..] holds back the reply of every k-th other call
 Model: lean/MlModel/Model/Sched.lean (`IT` with the all-ok environment, `trMergeStates`, `chMergeStates`,
 `stageReturned`) + the queue LTS of C04; theorems lean/MlModel/Properties/C16.lean.
 
@@ -16,11 +24,12 @@ import collections
 import queue
 
 from harness import lib_sched as L
+from harness import lib_sched_ext as X
 from harness.core import err_kind
 
 PID = 'C16'
 TITLE = 'Fault-free distributed execution equals in-process execution'
-LEAN_MODULES = ['MlModel.Properties.C16']
+LEAN_MODULES = ['MlModel.Properties.C16', 'MlModel.Properties.C16Stage', 'MlModel.Properties.C16Merge', 'MlModel.Witness.C16Stage', 'MlModel.Witness.C16Merge']
 TRUSTED = [
     'the courier transport is harness/fakecourier (in-process, no faults injected here); pickling is what the repo '
     'does itself (cloudpickle of the traced pipeline)',
@@ -32,7 +41,10 @@ ASSUMPTIONS = ['row-wise pipelines (apply / chained apply / aggregate), aggregat
                'result does not depend on the order of the rows']
 RULE = ('sharded: workers 1-4 x shards 1-6 x n 0..9 x three pipelines (exhaustive over the small grid, then random); '
         'interleaved: 1-3 workers x n 1..12 x {aggregate fused into the remote stage, aggregate as its own stage, no '
-        'aggregate} x buffer sizes; strict count: 0-4 states x strict 0..5 for both runner variants. '
+        'aggregate} x buffer sizes, also with the reply of the first kick-off RPC held back (2-3 workers) and with '
+        'latency on random replies; strict count: 0-4 states x strict 0..5 for both runner variants and for chains with '
+        'two / three aggregating stages, states as list and as one-shot generator; sharded runs of pipelines with two / '
+        'three aggregating stages (p3, p4). '
         'non-trivial = more than one worker or shard and at least two output batches')
 
 TIMEOUT = 20.0
@@ -55,6 +67,14 @@ def gen_cases(ctx):
       ctx.count('shards', c['shards'])
     if 'mode' in c:
       ctx.count('mode', c['mode'])
+    if c.get('pipe'):
+      ctx.count('pipe', c['pipe'])
+    if c.get('ack'):
+      ctx.count('ack_latency_ms', c['ack'])
+    if c.get('lat'):
+      ctx.count('reply_latency', 'yes')
+    if c['kind'] == 'strict':
+      ctx.count('strict_variant', c['variant'] + ('/oneshot' if c.get('oneshot') else ''))
     yield c
 
 
@@ -70,7 +90,12 @@ def _gen_cases(ctx):
       yield dict(kind='sharded', workers=w, shards=s, n=n, pipe=('p0', 'p1', 'p2')[(w + s + n) % 3])
   for _ in range(150 if quick else 2000):
     yield dict(kind='sharded', workers=rng.randrange(1, 5), shards=rng.randrange(1, 7), n=rng.randrange(0, 13),
-               pipe=rng.choice(['p0', 'p1', 'p2']))
+               pipe=rng.choice(['p0', 'p1', 'p2', 'p3', 'p4']))
+  # chains in which two / three stages aggregate: every stage's states come from the same one-shot stream
+  for (w, s) in [(1, 1), (1, 2), (2, 2), (2, 3), (3, 4)]:
+    for n in (0, s, s + 3):
+      for pipe in ('p3', 'p4'):
+        yield dict(kind='sharded', workers=w, shards=s, n=n, pipe=pipe)
   # default num_shards (= number of workers)
   for w in (1, 2, 3):
     yield dict(kind='sharded', workers=w, shards=0, n=5, pipe='p0')
@@ -81,10 +106,27 @@ def _gen_cases(ctx):
   for _ in range(200 if quick else 3000):
     yield dict(kind='interleaved', workers=rng.randrange(1, 4), n=rng.randrange(1, 13),
                mode=rng.choice(['fused', 'staged', 'noagg']), buffer=rng.choice([0, 1, 2, 5]))
+  # RPC latency: the reply of the first kick-off is late while the other workers drain the input and finish
+  for w in (2, 3):
+    for n in ((6 * (w - 1),) if quick else (3, 6, 9, 12, 20)):
+      for mode in ('staged', 'noagg', 'fused'):
+        for at in (1, 2):
+          yield dict(kind='interleaved', workers=w, n=n, mode=mode, buffer=(0, 2)[(w + n) % 2],
+                     ack=(150 if quick else 300), ack_at=at)
+  for _ in range(20 if quick else 1500):
+    yield dict(kind='interleaved', workers=rng.randrange(2, 4), n=rng.randrange(2, 13),
+               mode=rng.choice(['fused', 'staged', 'noagg']), buffer=rng.choice([0, 1, 2, 5]),
+               lat=[[rng.choice([1, 3, 8]), rng.randrange(2, 6)] for _ in range(rng.choice([1, 2]))])
+  # concurrent evaluation on one server: the lazy-function cache is shared by all handler threads (finding C16-F-lru)
+  for threads, iters in ([(2, 1500), (4, 1500), (3, 3000)] if quick else [(t, i) for t in (2, 3, 4, 8) for i in (1000, 3000, 10000)]):
+    yield dict(kind='cache', threads=threads, iters=iters)
   for k in range(0, 5):
     for strict in range(0, 6):
       for variant in ('transform', 'chained'):
         yield dict(kind='strict', states=k, strict=strict, variant=variant)
+      for variant in ('chained', 'chained2', 'chained3'):
+        yield dict(kind='strict', states=k, strict=strict, variant=variant, oneshot=True)
+      yield dict(kind='strict', states=k, strict=strict, variant='chained2')
 
 
 # ------------------------------------------------------------------------------------------ real code
@@ -97,6 +139,8 @@ def run_impl(case):
     return run_interleaved(case)
   if kind == 'strict':
     return run_strict(case)
+  if kind == 'cache':
+    return run_cache(case)
   raise ValueError(kind)
 
 
@@ -134,11 +178,45 @@ def interleaved_pipeline(n, mode):
   return ds.chain(apply_)
 
 
+def _chain(exc, depth=5):
+  """repr of an exception with its causes (a failed stage is reported as ValueError(...) from <the real error>)."""
+  out = []
+  while exc is not None and depth:
+    out.append(repr(exc)[:200])
+    subs = getattr(exc, 'exceptions', None)
+    if subs:
+      out.append('[' + '; '.join(_chain(e, 2) for e in subs[:3]) + ']')
+    exc = exc.__cause__ or exc.__context__
+    depth -= 1
+  return ' <- '.join(out)
+
+
 def run_interleaved(case):
   ns = L.setup()
+  X.install_exit_guard()
   cl = L.Cluster(case['workers'], [], master=True)
   out = []
   info = {}
+  lat = None
+  if case.get('ack') or case.get('lat'):
+    workers = set(cl.names)
+    state = dict(kick=0, other=0)
+
+    def choose(call):
+      if call.address not in workers:
+        return None
+      if X.is_kickoff(call):
+        state['kick'] += 1
+        if case.get('ack') and state['kick'] == case.get('ack_at', 1):
+          return case['ack'] / 1000.0       # this worker has been started and is pulling; its reply is late
+        return None
+      state['other'] += 1
+      for ms, k in case.get('lat') or ():
+        if state['other'] % k == 0:
+          return ms / 1000.0
+      return None
+
+    lat = X.ReplyLatency(choose)
   try:
     pipeline = interleaved_pipeline(case['n'], case['mode'])
 
@@ -152,55 +230,152 @@ def run_interleaved(case):
           out.append(b)
       info['returned'] = list(runner.result_queue.returned)
 
-    hang, _, exc = L.run_guarded(body, TIMEOUT)
+    hang, _, exc = L.run_guarded(body, 5.0 if lat is not None else TIMEOUT)
     outcome = 'hang' if hang else ('returned' if exc is None else err_kind(exc))
     returned = info.get('returned', [])
-    return dict(outcome=outcome, detail=repr(exc)[:200] if exc is not None else None,
+    obs = dict(outcome=outcome, detail=_chain(exc) if exc is not None else None,
                 batches=sorted(int(b) for b in out if b is not None), nones=sum(1 for b in out if b is None),
                 results=[L.canon_agg(r.agg_result) if isinstance(r, ns.transform.AggregateResult) else repr(r)
                          for r in returned],
-                acquired=cl.acquired())
+                acquired=cl.acquired(), delayed=(len(lat.delayed) if lat is not None else 0),
+                kick_delayed=(sum(1 for _, m in lat.delayed if m == 'maybe_make') if lat is not None else 0))
+    if hang or oracle(case, obs) is not None:
+      # a run that lost batches leaves producers blocked for ever on the stage queues: they must not wedge the
+      # interpreter's exit (the verdict - an oracle failure with this case as replay - is not affected)
+      X.forget_stuck_threads()
+    return obs
   finally:
+    if lat is not None:
+      lat.close()
     cl.close()
+
+
+def _sq(i):
+  return i * i
+
+
+def run_cache(case):
+  """`threads` handler threads evaluate cached lazy functions through the public `lazy_fns.maybe_make`: two thirds
+  new ones (insert; evict once the cache is full), one third repeated ones (hits)."""
+  import sys
+  import threading
+  ns = L.setup()
+  lf = ns.lazy_fns
+  lf.clear_cache()
+  errs, wrong = [], []
+
+  def work(t):
+    for j in range(case['iters']):
+      i = (t * 100000 + j) if j % 3 else (j % 7)
+      try:
+        v = lf.maybe_make(lf.trace(_sq)(i, cache_result_=True))
+        if v != i * i:
+          wrong.append([i, v])
+      except Exception as e:  # pylint: disable=broad-except
+        errs.append(f'{type(e).__name__}')
+        return
+
+  old = sys.getswitchinterval()
+  sys.setswitchinterval(1e-6)
+  try:
+    ts = [threading.Thread(target=work, args=(t,), daemon=True) for t in range(case['threads'])]
+    for t in ts:
+      t.start()
+    for t in ts:
+      t.join(30)
+    hang = any(t.is_alive() for t in ts)
+  finally:
+    sys.setswitchinterval(old)
+  info = lf.cache_info()
+  lf.clear_cache()
+  return dict(outcome='hang' if hang else ('returned' if not errs else errs[0]), errors=len(errs), wrong=wrong[:3],
+              currsize=info.currsize, maxsize=info.maxsize, evaluations=info.hits + info.misses)
 
 
 def run_strict(case):
   ns = L.setup()
   T = ns.transform.TreeTransform
   t = T.new(name='a').aggregate(output_keys='sc', fn=ns.base.as_agg_fn(L.SumCount))
+  nstages = {'chained2': 2, 'chained3': 3}.get(case['variant'], 1)
+  for j in range(1, nstages):
+    # further AGGREGATING stages: stage j adds j*100 to every value before summing it
+    t = t.chain(T.new(name=f'a{j}').apply(fn=_ADD[j]).aggregate(output_keys=f'sc{j}', fn=ns.base.as_agg_fn(L.SumCount)))
   chained = t.make()
-  runner = chained if case['variant'] == 'chained' else list(chained.named_aggs.values())[0]
+  whole = case['variant'] != 'transform'
+  runner = chained if whole else list(chained.named_aggs.values())[0]
   states = []
   for i in range(case['states']):
     st = runner.create_state()
-    if case['variant'] == 'chained':
+    if whole:
       st = chained.update_state(st, 10 + i)
     else:
       st = runner.update_state(st, 10 + i)
     states.append(st)
+  oneshot = case.get('oneshot') or case['variant'] == 'transform'
   try:
-    merged = runner.merge_states(iter(states) if case['variant'] == 'transform' else states,
-                                 strict_states_cnt=case['strict'])
+    merged = runner.merge_states((s for s in states) if oneshot else states, strict_states_cnt=case['strict'])
   except Exception as e:  # pylint: disable=broad-except
-    return dict(outcome=err_kind(e), total=None)
+    return dict(outcome=err_kind(e), total=None, totals=None)
   if not merged:
-    return dict(outcome='returned', total=0)      # no state at all: the empty merge
+    return dict(outcome='returned', total=0, totals=[0] * nstages)      # no state at all: the empty merge
   res = runner.get_result(merged)
-  return dict(outcome='returned', total=int(list(res['sc'])[0]))
+  keys = ['sc'] + [f'sc{j}' for j in range(1, nstages)]
+  totals = []
+  for k in keys:       # (no `k in res`: membership on a tree view probes integer indices for ever)
+    try:
+      totals.append(int(list(res[k])[0]))
+    except Exception:  # pylint: disable=broad-except
+      totals.append(None)
+  return dict(outcome='returned', total=totals[0], totals=totals)
+
+
+def _add100(x):
+  return x + 100
+
+
+def _add200(x):
+  return x + 200
+
+
+_ADD = {1: _add100, 2: _add200}
+
+
+def stage_totals(case):
+  """What every aggregating stage of the 'strict' case has to report after merging ALL states: stage j sums the
+  values 10+i shifted by the stages before it."""
+  nstages = {'chained2': 2, 'chained3': 3}.get(case['variant'], 1)
+  k = case['states']
+  out, shift = [], 0
+  for j in range(nstages):
+    shift += 100 * j
+    out.append(sum(10 + i + shift for i in range(k)))
+  return out
 
 
 # ------------------------------------------------------------------------------------------ oracle
 
 def oracle(case, obs):
   kind = case['kind']
+  if kind == 'cache':
+    if obs['outcome'] != 'returned':
+      return (f"evaluating cached lazy functions on {case['threads']} handler threads: {obs['errors']} threads died with "
+              f"{obs['outcome']} (in process every evaluation returns its value)")
+    if obs['wrong']:
+      return f"concurrent evaluation returned wrong values (argument, value): {obs['wrong']}"
+    if obs['currsize'] > obs['maxsize']:
+      return f"the cache reports {obs['currsize']} entries, more than its maximum {obs['maxsize']}"
+    return None
   if kind == 'strict':
     k, n = case['states'], case['strict']
     if n >= 1 and k != n:
       return None if obs['outcome'] == 'ValueError' else f'{k} states, strict count {n}: expected ValueError, got {obs}'
     if obs['outcome'] != 'returned':
       return f'{k} states, strict count {n}: unexpected {obs["outcome"]}'
-    want = sum(10 + i for i in range(k))
-    return None if obs['total'] == want else f'merge of {k} states = {obs["total"]}, expected {want}'
+    want = stage_totals(case)
+    if k == 0:
+      want = [0] * len(want)
+    return None if obs['totals'] == want else \
+        f'merge of {k} states: per aggregating stage {obs["totals"]}, expected {want} (every stage merges ALL states)'
   if obs['acquired']:
     return f"workers still acquired afterwards: {obs['acquired']}"
   if obs['outcome'] != 'returned':
@@ -238,6 +413,11 @@ def oracle(case, obs):
 def model_requests_obs(case, obs):
   kind = case['kind']
   if kind == 'strict':
+    if case['variant'] in ('chained2', 'chained3') or case.get('oneshot'):
+      ns_ = {'chained2': 2, 'chained3': 3}.get(case['variant'], 1)
+      shifts = [0, 100, 300][:ns_]
+      return [dict(model='sched', op='merge_multi', stages=ns_, strict=case['strict'],
+                   states=[[10 + i + sh for sh in shifts] for i in range(case['states'])])]
     return [dict(model='sched', op='merge', states=[10 + i for i in range(case['states'])], strict=case['strict'])]
   if kind == 'sharded':
     nb = obs['nb']
@@ -252,10 +432,15 @@ def model_obs(case, resps):
   if not resps:
     return None
   r = resps[0]
+  if case['kind'] == 'strict' and ('totals' in r or 'err' in r):
+    if 'err' in r:
+      return dict(kind='strict', outcome='ValueError', total=None, totals=None)
+    tot = r['totals'] if case['states'] else [0] * len(r['totals'])
+    return dict(kind='strict', outcome='returned', total=tot[0], totals=tot)
   if case['kind'] == 'strict':
     v = r[case['variant']]
     return dict(kind='strict', outcome='ValueError' if isinstance(v, dict) else 'returned',
-                total=None if isinstance(v, dict) else v)
+                total=None if isinstance(v, dict) else v, totals=None)
   return dict(kind='sharded', terminals=r['terminals'], stuck=r['stuck'])
 
 
@@ -265,6 +450,8 @@ def compare(obs, mobs):
   if mobs['kind'] == 'strict':
     a = (obs['outcome'], obs['total'])
     b = (mobs['outcome'], mobs['total'])
+    if mobs.get('totals') is not None and obs.get('totals') != mobs['totals']:
+      return f"impl per-stage totals {obs.get('totals')} model {mobs['totals']}"
     return None if a == b else f'impl {a} model {b}'
   # sharded, fault-free: the model has exactly one terminal observation whatever the schedule (theorem C16_sharded)
   ts = mobs['terminals']
@@ -280,7 +467,44 @@ def compare(obs, mobs):
   return None
 
 
+_ARMS = collections.Counter()
+REQUIRED_ARMS = ['cache:concurrent-evaluation-beyond-capacity', 'interleaved:kickoff-reply-late(2+ workers)', 'interleaved:reply-latency', 'sharded:two-aggregating-stages',
+                 'sharded:three-aggregating-stages', 'strict:multi-stage-oneshot-merged', 'strict:multi-stage-oneshot-rejected']
+
+
+def _cover(case, obs):
+  kind = case['kind']
+  if oracle(case, obs) is not None:
+    _ARMS['(oracle failed)'] += 1      # the verdict is a VIOLATION; coverage does not decide this run
+  if kind == 'cache' and case['threads'] >= 2 and obs['evaluations'] > obs['maxsize']:
+    _ARMS['cache:concurrent-evaluation-beyond-capacity'] += 1
+  if kind == 'interleaved' and obs.get('kick_delayed') and case.get('ack') and case['workers'] >= 2:
+    _ARMS['interleaved:kickoff-reply-late(2+ workers)'] += 1
+  if kind == 'interleaved' and case.get('lat') and obs.get('delayed'):
+    _ARMS['interleaved:reply-latency'] += 1
+  if kind == 'sharded' and obs['outcome'] == 'returned' and (case['shards'] or case['workers']) >= 2 and case['n'] >= 2:
+    if case['pipe'] == 'p3':
+      _ARMS['sharded:two-aggregating-stages'] += 1
+    if case['pipe'] == 'p4':
+      _ARMS['sharded:three-aggregating-stages'] += 1
+  if kind == 'strict' and case.get('oneshot') and case['variant'] in ('chained2', 'chained3') and case['states'] >= 2:
+    _ARMS['strict:multi-stage-oneshot-' + ('merged' if obs['outcome'] == 'returned' else 'rejected')] += 1
+
+
+def extra(ctx):
+  """Coverage promise (else: infrastructure failure, not a verdict)."""
+  from harness.core import InfraError
+  for k, v in sorted(_ARMS.items()):
+    ctx.count('arm', k, v)
+  missing = [a for a in REQUIRED_ARMS if not _ARMS.get(a)]
+  if missing and not _ARMS.get('(oracle failed)'):
+    raise InfraError(f'C16 generator missed promised arms: {missing}')
+
+
 def nontrivial(case, obs):
+  _cover(case, obs)
+  if case['kind'] == 'cache':
+    return obs['evaluations'] > obs['maxsize'] and case['threads'] >= 2
   if case['kind'] == 'strict':
     return case['states'] >= 2 and case['strict'] >= 1
   return (case['workers'] > 1 or case.get('shards', 1) > 1) and case['n'] >= 2
